@@ -136,5 +136,40 @@ def diagFails [BEq K] (half : K) (st : Settings K) (u : UserProblem K n p m) (q 
   bad "primal_inf" (verdict && !(info.primalInf == t.primalInf)) ++
   bad "dual_inf" (verdict && !(info.dualInf == t.dualInf))
 
+/-- C15: the scaled data held by the solver are the user's (effective) data transformed by the scalings the
+    preconditioner reports, and every inverse scaling is the inverse on the active indices.
+    `u.lb/ub`: packed order = increasing variable index of the finite bounds. -/
+def precondFails [BEq K] (u : UserProblem K n p m) (d : Data K n p m) (pre : Precond K n p m) : List String :=
+  let bad (name : String) (c : Bool) : List String := if c then [name] else []
+  let anyN (f : Fin n → Bool) : Bool := (List.finRange n).any f
+  -- rank of variable j among the finite lower (upper) bounds
+  let finL : Fin n → Bool := fun j => u.lb[j].isSome
+  let finU : Fin n → Bool := fun j => u.ub[j].isSome
+  bad "P" (anyN fun i => anyN fun j => decide (i.val ≤ j.val) && !(d.P[i][j] == pre.c * pre.dx[i] * pre.dx[j] * u.P[i][j])) ++
+  bad "c" (anyN fun i => !(d.c[i] == pre.c * pre.dx[i] * u.c[i])) ++
+  bad "A" (anyN fun i => (List.finRange p).any fun k => !(d.AT[i][k] == pre.dx[i] * u.A[k][i] * pre.dy[k])) ++
+  bad "G" (anyN fun i => (List.finRange m).any fun k => !(d.GT[i][k] == pre.dx[i] * u.G[k][i] * pre.dz[k])) ++
+  bad "b" ((List.finRange p).any fun k => !(d.b[k] == u.b[k] * pre.dy[k])) ++
+  bad "h" ((List.finRange m).any fun k => !(d.h[k] == u.h[k] * pre.dz[k])) ++
+  bad "n_lb" (d.lb.cnt != ((List.finRange n).filter finL).length) ++
+  bad "n_ub" (d.ub.cnt != ((List.finRange n).filter finU).length) ++
+  bad "lb-packing" (anyN fun k => decide (k.val < d.lb.cnt) &&
+      (match u.lb[d.lb.idx[k]] with
+       | some v => !(d.lb.val[k] == -v * pre.dlb[k]) || !(d.lb.sc[k] == pre.dlb[k] * pre.dx[d.lb.idx[k]])
+       | none => true)) ++
+  bad "ub-packing" (anyN fun k => decide (k.val < d.ub.cnt) &&
+      (match u.ub[d.ub.idx[k]] with
+       | some v => !(d.ub.val[k] == v * pre.dub[k]) || !(d.ub.sc[k] == pre.dub[k] * pre.dx[d.ub.idx[k]])
+       | none => true)) ++
+  bad "c_inv" (!(pre.c * pre.cInv == 1)) ++
+  bad "delta_inv" (anyN (fun i => !(pre.dx[i] * pre.dxInv[i] == 1)) || (List.finRange p).any (fun k => !(pre.dy[k] * pre.dyInv[k] == 1)) ||
+                   (List.finRange m).any (fun k => !(pre.dz[k] * pre.dzInv[k] == 1))) ++
+  bad "delta_lb_inv" (anyN fun k => decide (k.val < d.lb.cnt) && !(pre.dlb[k] * pre.dlbInv[k] == 1)) ++
+  bad "delta_ub_inv" (anyN fun k => decide (k.val < d.ub.cnt) && !(pre.dub[k] * pre.dubInv[k] == 1)) ++
+  bad "n_lb-stale" (pre.nlb != d.lb.cnt) ++ bad "n_ub-stale" (pre.nub != d.ub.cnt) ++
+  bad "scaling-not-positive" (!decide (0 < pre.c) || anyN (fun i => !decide (0 < pre.dx[i])) ||
+      (List.finRange p).any (fun k => !decide (0 < pre.dy[k])) || (List.finRange m).any (fun k => !decide (0 < pre.dz[k])) ||
+      anyN (fun k => decide (k.val < d.lb.cnt) && !decide (0 < pre.dlb[k])) || anyN (fun k => decide (k.val < d.ub.cnt) && !decide (0 < pre.dub[k])))
+
 end
 end Piqp
